@@ -107,8 +107,12 @@ Eff1(op, c) ==
                 IN Acc([d EXCEPT !.pars = Put(@, op.n, v)])
       [] op.op = "add_derived" ->
            IF Free(c, op.n) THEN Acc([c EXCEPT !.der = Put(@, op.n, op.call)]) ELSE Rej(c)
-      [] op.op = "update_derived" ->
-           IF op.n \in DOMAIN c.der THEN Acc([c EXCEPT !.der = Put(@, op.n, op.call)]) ELSE Rej(c)
+      [] op.op = "update_derived" ->      \* mode "both" | "fn" (function only) | "args" (arguments only)
+           IF op.n \notin DOMAIN c.der THEN Rej(c)
+           ELSE LET old == c.der[op.n]
+                    cl == [fn   |-> IF op.mode \in {"both", "fn"} THEN op.call.fn ELSE old.fn,
+                           args |-> IF op.mode \in {"both", "args"} THEN op.call.args ELSE old.args]
+                IN Acc([c EXCEPT !.der = Put(@, op.n, cl)])
       [] op.op = "remove_derived" ->
            IF op.n \in DOMAIN c.der THEN Acc([c EXCEPT !.der = Drop(@, op.n)]) ELSE Rej(c)
       [] op.op = "add_reaction" ->
@@ -118,7 +122,9 @@ Eff1(op, c) ==
       [] op.op = "update_reaction" ->      \* call / st may be "none" = keep
            IF op.n \notin DOMAIN c.rxn THEN Rej(c)
            ELSE LET old == c.rxn[op.n]
-                    cl == IF op.call.fn = "none" THEN [fn |-> old.fn, args |-> old.args] ELSE op.call
+                    cl == IF op.call.fn = "none" THEN [fn |-> old.fn, args |-> old.args]
+                          ELSE [fn   |-> IF op.mode \in {"both", "fn"} THEN op.call.fn ELSE old.fn,
+                                args |-> IF op.mode \in {"both", "args"} THEN op.call.args ELSE old.args]
                     st == IF op.keepst THEN old.st ELSE op.st
                 IN Acc([c EXCEPT !.rxn = Put(@, op.n, [fn |-> cl.fn, args |-> cl.args, st |-> st])])
       [] op.op = "remove_reaction" ->
@@ -239,6 +245,14 @@ CallMenu(n) ==
     \cup {Call("mul", <<a, b>>) : a \in Names \ {n}, b \in NamesT \ {n}}
     \cup {Call("inc", <<n>>)}                   \* self-reference: circular
 
+\* partial updates (function only / arguments only) keep the arity of the component as it is now
+SameArity(k) == CASE k = 0 -> {"one", "two"} [] k = 1 -> {"inc", "dbl", "neg"} [] k = 2 -> {"mul", "add"} [] OTHER -> {"mad"}
+PartialMenu(tab, n) ==
+    IF n \in DOMAIN tab
+    THEN LET k == Len(tab[n].args)
+         IN {Call(f, a) : f \in SameArity(k) \ {tab[n].fn}, a \in {[j \in 1..k |-> Other(n)], [j \in 1..k |-> IF j = 1 THEN "time" ELSE Other(n)]}}
+    ELSE {Call("inc", <<Other(n)>>)}
+
 VarsOf(cc) == M!VarSet(cc)
 StMenu(cc) ==
     {Empty} \cup {(v :> Num(0 - 1)) : v \in VarsOf(cc)}
@@ -267,12 +281,15 @@ SingularOps(cc) ==
       \cup {[op |-> "update_variable", n |-> n, v |-> v] : v \in ValueMenu(n)}
       \cup {[op |-> "make_variable_static", n |-> n, iv |-> iv] : iv \in {None, Num(4)}}
       \cup {[op |-> "add_derived", n |-> n, call |-> cl] : cl \in CallMenu(n)}
-      \cup {[op |-> "update_derived", n |-> n, call |-> cl] : cl \in CallMenu(n)}
+      \cup {[op |-> "update_derived", n |-> n, call |-> cl, mode |-> "both"] : cl \in CallMenu(n)}
+      \cup {[op |-> "update_derived", n |-> n, call |-> cl, mode |-> md] : cl \in PartialMenu(cc.der, n), md \in {"fn", "args"}}
       \cup {[op |-> "remove_derived", n |-> n]}
       \cup {[op |-> "add_reaction", n |-> n, call |-> cl, st |-> st] : cl \in CallMenu(n), st \in StMenu(cc)}
-      \cup {[op |-> "update_reaction", n |-> n, call |-> cl, keepst |-> TRUE, st |-> Empty] :
+      \cup {[op |-> "update_reaction", n |-> n, call |-> cl, mode |-> "both", keepst |-> TRUE, st |-> Empty] :
                cl \in {NoCall, Call("two", <<>>), Call("inc", <<Other(n)>>)}}
-      \cup {[op |-> "update_reaction", n |-> n, call |-> cl, keepst |-> FALSE, st |-> st] :
+      \cup {[op |-> "update_reaction", n |-> n, call |-> cl, mode |-> md, keepst |-> TRUE, st |-> Empty] :
+               cl \in PartialMenu(cc.rxn, n), md \in {"fn", "args"}}
+      \cup {[op |-> "update_reaction", n |-> n, call |-> cl, mode |-> "both", keepst |-> FALSE, st |-> st] :
                cl \in {NoCall, Call("inc", <<Other(n)>>)}, st \in StMenu(cc)}
       \cup {[op |-> "remove_reaction", n |-> n]}
       \cup (IF OpSet = "all" THEN
